@@ -112,7 +112,7 @@ func withLayout(p *Plan, l Layout, cuts []int) *Plan {
 	for r := 0; r+1 < len(cuts); r++ {
 		rs := ReaderSpec{Text: renderNodes(c.Program.Nodes[cuts[r]:cuts[r+1]], l, uint64(r))}
 		if r < len(old) {
-			rs.Chunks, rs.EOF = old[r].Chunks, old[r].EOF
+			rs.Chunks, rs.EOF, rs.Before = old[r].Chunks, old[r].EOF, old[r].Before
 		}
 		c.World.Readers = append(c.World.Readers, rs)
 	}
